@@ -6,6 +6,7 @@ import Mb2.Spec
 import Mb2.Lemmas.Build
 import Mb2.Lemmas.Tags
 import Mb2.Props.C16
+import Mb2.Props.C02
 namespace Mb2.C06
 open Mb2
 
@@ -167,6 +168,87 @@ theorem sizedImg_wf (typ : Nat) (payload : Bytes) (hs : 8 + payload.length < 429
 
 /-! Non-vacuity -/
 example : Spec.tagsOf .tag ([4,0,0,0, 16,0,0,0, 1,0,0,0, 2,0,0,0] ++ endImg) = ([⟨0, 4, 16, 8⟩, ⟨16, 0, 8, 0⟩], .done) := by decide
+
+theorem wf_len_mod (imgs : List Bytes) (hwf : ∀ b ∈ imgs, WFImg b) : imgs.flatten.length % 8 = 0 := by
+  induction imgs with
+  | nil => rfl
+  | cons b rest ih =>
+    have hb := (hwf b (by simp)).2.2
+    have := roundUp8_mod (le32 b 4)
+    have := ih (fun x hx => hwf x (by simp [hx]))
+    simp only [List.flatten_cons, List.length_append]
+    omega
+
+/-- C06, end to end on the model: handing ANY list of well-formed tag images (plus the end tag) to the final
+    `new_boxed` of `Builder::build` yields - without panic - a structure whose first word is its exact byte length, whose
+    length is a multiple of 8, which is allocated 8-aligned with exactly that size, which LOADS successfully
+    (`BootInformation::load` model), and whose tag area is the images back to back followed by the end tag (so that, by
+    `built_area_walk`, its walk is exactly the supplied tags followed by one end tag). -/
+theorem build_wellformed (p : Profile) (imgs : List Bytes) (hwf : ∀ b ∈ imgs, WFImg b)
+    (hlen : imgs.flatten.length + 16 < 2^32) :
+    let total := 8 + imgs.flatten.length + 8
+    let bytes := enc32 total ++ enc32 0 ++ (imgs.flatten ++ endImg)
+    newBoxed p .bi (genericDesc .bi) (enc32 0 ++ enc32 0) (imgs ++ [endImg]) = .ok ⟨bytes, total, 8, total⟩ ∧
+    bytes.length = total ∧ total % 8 = 0 ∧
+    load p false bytes = .ok (.ok ⟨0, total, total⟩) ∧
+    (bytes.take total).drop 8 = imgs.flatten ++ endImg := by
+  intro total bytes
+  have hL : imgs.flatten.length + 16 < 4294967296 := hlen
+  have hW := W64_eq
+  have hm := wf_len_mod imgs hwf
+  have hend : endImg.length = 8 := rfl
+  have hflat : (imgs ++ [endImg]).flatten = imgs.flatten ++ endImg := by simp
+  have hcl : (imgs.flatten ++ endImg).length = imgs.flatten.length + 8 := by simp [hend]
+  have htot : total = 8 + (imgs.flatten ++ endImg).length := by simp only [total, hcl]; omega
+  have hbl : bytes.length = total := by
+    simp only [bytes, List.length_append, enc32_length, hend, total]; omega
+  have htm : total % 8 = 0 := by simp only [total]; omega
+  have hr8 : roundUp8 total = total := roundUp8_of_mod total htm
+  have h0 : le32 bytes 0 = total := by
+    simp only [bytes]
+    rw [List.append_assoc, le32_enc32]
+    exact Nat.mod_eq_of_lt (by simp only [total]; omega)
+  refine ⟨?_, hbl, htm, ?_, ?_⟩
+  · unfold newBoxed
+    simp only [hflat]
+    have hh : HK.bi.hsize = 8 := rfl
+    rw [hh, ← htot, incAlign_eq p _ (by omega), hr8]
+    simp only [Res.bind_ok]
+    have hd : (genericDesc .bi).dstLen p total = .ok (total - 8) := rfl
+    rw [hd]
+    simp only [Res.bind_ok]
+    have hs : (genericDesc .bi).sizeOfVal (total - 8) = total := by
+      simp only [genericDesc, TyDesc.sizeOfVal, HK.hsize, roundUp]
+      have e : 8 + (total - 8) * 1 + 8 - 1 = total + 7 := by simp only [total]; omega
+      rw [e]
+      exact hr8
+    rw [hs, if_neg (by simp)]
+    have hset : setSize .bi (enc32 0 ++ enc32 0) total = enc32 total ++ enc32 0 := by
+      simp [setSize, HK.sizeOff, enc32]
+    rw [hset]
+    rfl
+  · rw [C02.load_eq p bytes ⟨by omega, by omega⟩]
+    simp only [h0]
+    rw [if_neg (by simp only [total]; omega), if_neg (by omega)]
+    have hpre : bytes = (enc32 total ++ enc32 0 ++ imgs.flatten) ++ endImg := by simp [bytes, List.append_assoc]
+    have hprel : (enc32 total ++ enc32 0 ++ imgs.flatten).length = total - 8 := by
+      simp only [List.length_append, enc32_length, total]; omega
+    have e1 : le32 bytes (total - 8) = 0 := by
+      rw [hpre]
+      have := le32_append_right (enc32 total ++ enc32 0 ++ imgs.flatten) endImg 0
+      rw [hprel] at this
+      simp only [Nat.add_zero] at this
+      rw [this]; decide
+    have e2 : le32 bytes (total - 4) = 8 := by
+      rw [hpre]
+      have := le32_append_right (enc32 total ++ enc32 0 ++ imgs.flatten) endImg 4
+      rw [hprel] at this
+      have e3 : total - 8 + 4 = total - 4 := by simp only [total]; omega
+      rw [e3] at this
+      rw [this]; decide
+    rw [if_pos ⟨e1, e2⟩]
+  · rw [List.take_of_length_le (by omega)]
+    simp [bytes, List.append_assoc, enc32]
 
 /-- builder slots: an `Option` slot keeps the last tag, a `Vec` slot all tags in call order; other slots are untouched -/
 theorem slot_put_same (st : BState) (slot : String) (multi : Bool) (img : Img) :
